@@ -1,7 +1,7 @@
 // U-sched: the scheduler core under contract (C01-C06, C08, C15, C16, C19 function-level parts).
 //@@ unit U-sched
 //@@ default props=C02 rewrites=R1,R2,R3,R5,R13 ghost="Tracked(h): Tracked<&mut Heap>" ghostarg="Tracked(h)" loopinv="h.wf(), fwd(*old(h), *h)," bodyprelude="broadcast use {lemma_fwd_refl, lemma_fwd_trans};" attr="#[verifier::exec_allows_no_decreases_clause] #[verifier::loop_isolation(false)]"
-//@@ heapmethods state set_state set_err err children children_in next parent siblings task set_task sched_task emit_task_event emit_proc_event eval init run review error exec is_ready emit_task emit_error create_task push root set_data flag set_flag prev start_time update_data outputs is_event_processed prepare is_auto_complete abort_task back_task undo_task redo_task
+//@@ heapmethods state set_state set_err err children children_in next parent siblings task set_task sched_task emit_task_event emit_proc_event eval init run review error exec is_ready emit_task emit_error create_task push root set_data flag set_flag prev start_time update_data outputs is_event_processed prepare is_auto_complete abort_task back_task undo_task redo_task action set_action get_var get_var_or_default dispatch_act backs backs_step create_context set_message_with update arm_cancel
 use vstd::prelude::*;
 use std::sync::Arc;
 verus! {
@@ -54,7 +54,7 @@ impl Context {
         requires old(h).wf(), wf_task(*old(h), **task)
         ensures
             //# H4-emit-fwd
-            final(h).wf() && fwd(*old(h), *final(h)) && final(h).cur == old(h).cur,
+            final(h).wf() && fwd(*old(h), *final(h)) && final(h).cur == old(h).cur && ret is Ok,
             //# H4-non-error-event-keeps-existing-tasks
             !(old(h).st(task.id@) is Error) ==> forall|x: Tid| #[trigger] old(h).has(x) ==> final(h).tasks[x] == old(h).tasks[x],
 //@@ end
@@ -72,7 +72,7 @@ impl Context {
         requires old(h).wf(), wf_task(*old(h), **task), task.node.s_kind() != NodeKind::Workflow
         ensures
             //# R-redo-fwd
-            final(h).wf() && fwd(*old(h), *final(h)) && final(h).cur == old(h).cur,
+            final(h).wf() && fwd(*old(h), *final(h)) && final(h).cur == old(h).cur && ret is Ok,
             //# R-redo-existing-unchanged
             forall|x: Tid| #[trigger] old(h).has(x) ==> final(h).tasks[x] == old(h).tasks[x],
 //@@ end
@@ -81,7 +81,7 @@ impl Context {
         requires old(h).wf(), wf_task(*old(h), **task), !st_terminal(old(h).st(task.id@))
         ensures
             //# B-abort-fwd
-            final(h).wf() && fwd(*old(h), *final(h)),
+            final(h).wf() && fwd(*old(h), *final(h)) && ret is Ok,
             //# B-abort-closes-the-act
             ret is Ok ==> final(h).st(task.id@) is Aborted,
 //@@ proof at=beforeloop1
@@ -148,7 +148,7 @@ impl Context {
         requires old(h).wf(), wf_task(*old(h), **task), !st_terminal(old(h).st(task.id@)), tasks_ok(*old(h), paths@)
         ensures
             //# K-back-fwd
-            final(h).wf() && fwd(*old(h), *final(h)),
+            final(h).wf() && fwd(*old(h), *final(h)) && ret is Ok,
 //@@ proof at=beforeloop1
         let ghost act_tid0 = task.id@;
 //@@ loop 1
@@ -167,6 +167,68 @@ impl Context {
         invariant
             //# paths-ok
             tasks_ok(*h, __v3@),
+//@@ end
+}
+
+impl Context {
+    // stub (G6 replaces it): one new act task under the current task, pushed to the queue, unless the current task is in state None
+    #[verifier::external_body]
+    pub fn dispatch_act(&self, act: &Act, is_hook_event: bool, Tracked(h): Tracked<&mut Heap>) -> (r: Result<()>)
+        requires old(h).wf()
+        ensures final(h).wf(), fwd(*old(h), *final(h)), final(h).cur == old(h).cur, r is Ok,
+                forall|x: Tid| #[trigger] old(h).has(x) ==> final(h).tasks[x] == old(h).tasks[x],
+    { unimplemented!() }
+}
+// R8: the Cancel arm of Task::update (closure over the heap inside `follows`) is a declared hole
+#[verifier::external_body]
+pub fn arm_cancel(task: &Arc<Task>, ctx: &Context, Tracked(h): Tracked<&mut Heap>) -> (r: Result<()>)
+    requires old(h).wf()
+    ensures final(h).wf(), fwd(*old(h), *final(h)),
+{ unimplemented!() }
+pub open spec fn guarded_event(e: EventAction) -> bool {
+    e is Next || e is Submit || e is Back || e is Abort || e is Skip || e is Error || e is Remove || e is SetProcessVars
+}
+impl Task {
+//@@ extract file=acts/src/scheduler/process/task.rs in="impl Task" item="fn update" name=Task::update props=C02,C05,C06,C09
+//@@ rw R7 `ctx . get_var :: < String > ( $K ) . unwrap_or_default ( )` => `ctx.get_var_or_default::<String>($K)`
+//@@ rw R7 `ctx . get_var ( $K ) . unwrap_or_default ( )` => `ctx.get_var_or_default($K)`
+//@@ rw R7 `self . backs ( & | t | t . node . kind ( ) == NodeKind :: Step && t . node . id ( ) == nid , & mut path_tasks , )` => `self.backs_step(&nid, &mut path_tasks)`
+//@@ rw R8 `EventAction :: Cancel => $B:block` => `EventAction::Cancel => { arm_cancel(self, ctx)?; }`
+//@@ rw R7 `ctx . runtime . cache ( ) . store ( )` => `ctx.runtime.cache().store()`
+//@@ spec
+        requires old(h).wf(), wf_task(*old(h), **self), old(h).cur == self.id@
+        ensures
+            //# A-update-fwd
+            final(h).wf() && fwd(*old(h), *final(h)),
+            //# A2-no-action-rejected
+            old(h).action is None ==> ret is Err && *final(h) == *old(h),
+            //# A2-terminal-act-rejects-everything
+            old(h).action is Some && guarded_event(old(h).action->Some_0.event) && st_terminal(old(h).st(self.id@)) ==> ret is Err && *final(h) == *old(h),
+            //# A2-rejected-back-has-no-effect
+            old(h).action is Some && old(h).action->Some_0.event is Back && ret is Err ==> *final(h) == *old(h),
+            //# A2-rejected-abort-has-no-effect
+            old(h).action is Some && old(h).action->Some_0.event is Abort && ret is Err ==> *final(h) == *old(h),
+            //# A2-error-needs-a-code
+            old(h).action is Some && old(h).action->Some_0.event is Error && var_spec::<String>(old(h).action, consts::ACT_ERR_CODE@) is None ==> ret is Err && *final(h) == *old(h),
+            //# A5-messages-of-the-act-closed
+            ret is Ok && !(old(h).action->Some_0.event is Push) ==> final(h).msg_closed.len() > 0
+                && final(h).msg_closed.last() == (old(h).action->Some_0.pid@, old(h).action->Some_0.tid@, MessageStatus::Completed),
+//@@ loop 1
+        invariant
+            //# sib-ok
+            tasks_ok(*h, __v1@),
+            //# sib-not-self
+            forall|i: int| 0 <= i < __v1@.len() ==> (#[trigger] __v1@[i]).id@ != self.id@,
+            //# self-untouched
+            h.tasks[self.id@] == old(h).tasks[self.id@] && h.cur == old(h).cur,
+//@@ loop 2
+        invariant
+            //# psib-ok
+            tasks_ok(*h, __v2@),
+            //# psib-not-self
+            forall|i: int| 0 <= i < __v2@.len() ==> (#[trigger] __v2@[i]).id@ != self.id@,
+            //# self-untouched
+            h.tasks[self.id@] == old(h).tasks[self.id@] && h.cur == old(h).cur,
 //@@ end
 }
 
